@@ -157,6 +157,19 @@ void __asan_on_error(void)
 #define CALL_BEGIN(e) do { shim_wait_seen(); shim_nonblock_watch(true); shim_enter(e); errno = 0; } while (0)
 #define CALL_END() do { shim_leave(); shim_nonblock_watch(false); } while (0)
 
+/* credentials from <XCM_TLS_CERT>/../<dir>; noauth: the socket does not verify its peer */
+static void add_cred_files(struct xcm_attr_map *a, const char *dir, bool noauth)
+{
+    const char *base = getenv("XCM_TLS_CERT");
+    char p[600];
+    snprintf(p, sizeof(p), "%s/../%s/cert.pem", base ? base : ".", dir);
+    xcm_attr_map_add_str(a, "tls.cert_file", p);
+    snprintf(p, sizeof(p), "%s/../%s/key.pem", base ? base : ".", dir);
+    xcm_attr_map_add_str(a, "tls.key_file", p);
+    if (noauth)
+	xcm_attr_map_add_bool(a, "tls.auth", false);
+}
+
 static struct xcm_attr_map *nb_attrs(void)
 {
     struct xcm_attr_map *a = xcm_attr_map_create();
@@ -363,15 +376,34 @@ static void *close_later(void *arg)
     return NULL;
 }
 
+/* accfail: the first accept with a connection pending finds the process out of descriptors / memory (accept4 fails):
+   the call on the non-blocking server reports it at once (op "acx"); the connection is accepted by a later call */
+static int acc_fail_errno;
+
 static void do_accept(void)
 {
     struct xcm_attr_map *a = nb_attrs();
+    int inj = 0;
+    if (acc_fail_errno && so[3] && poll1(listen_kfd(), POLLIN) > 0) {
+	inj = acc_fail_errno;
+	acc_fail_errno = 0;
+	shim_fail_nth(SHIM_RC_ACCEPT, 1, inj);
+    }
     CALL_BEGIN(3);
     struct xcm_socket *c = xcm_accept_a(so[3], a);
     int err = errno;
     CALL_END();
     int w = shim_wait_seen();
     xcm_attr_map_destroy(a);
+    if (inj) {
+	int hit = shim_rc_failed();
+	shim_fail_nth(0, 0, 0);
+	if (c) {
+	    shim_enter(2); xcm_close(c); shim_leave();
+	}
+	emit("acx", 3, c ? 0 : -1, c ? 0 : err, hit ? inj : 0, w);
+	return;
+    }
     if (c && !so[2]) {
 	so[2] = c;
 	xfd0[2] = xcm_fd(c);
@@ -541,7 +573,17 @@ static void run(void)
     bool garbage2 = strcmp(scen, "garbage2") == 0;
     bool longidle = strcmp(scen, "longidle") == 0;
     bool accblk = strcmp(scen, "accblk") == 0;
-    bool normal = strcmp(scen, "normal") == 0 || ctlflood || garbage2 || longidle, refused = strcmp(scen, "refused") == 0,
+    bool accfail = strcmp(scen, "accfail") == 0;
+    static const int accerrs[] = { EMFILE, ENFILE, ENOMEM, ENOBUFS };
+    acc_fail_errno = accfail ? accerrs[(seq >> 1) % 4] : 0;
+    /* badski (tls-based): one side presents a self-signed certificate the other side does not trust, whose
+       subjectKeyIdentifier is not a 20-byte hash (32 bytes, empty, 2000 bytes, 21 bytes): hostile handshake input
+       the verifying side turns down without being harmed */
+    bool badski = strcmp(scen, "badski") == 0;
+    static const char *skis[] = { "ski32", "ski0", "ski2000", "ski21" };
+    const char *skid = skis[(seq >> 1) % 4];
+    bool ski_on_server = badski && (seq & 1);
+    bool normal = strcmp(scen, "normal") == 0 || ctlflood || garbage2 || longidle || accfail, refused = strcmp(scen, "refused") == 0,
 	 silent = strcmp(scen, "silent") == 0, release = strcmp(scen, "release") == 0,
 	 mute = strcmp(scen, "mute") == 0, garbage = strcmp(scen, "garbage") == 0, idle = strcmp(scen, "idle") == 0 || accblk;
     int up = 1;
@@ -550,7 +592,9 @@ static void run(void)
     int port = 0;
 
     struct xcm_attr_map *a = nb_attrs();
-    if (normal || idle) {
+    if (normal || idle || badski) {
+	if (badski && ski_on_server)
+	    add_cred_files(a, skid, false);
 	if (strcmp(tp, "ux") == 0)
 	    snprintf(addr, sizeof(addr), "ux:verif-est-%d-%ld", getpid(), seq);
 	else if (strcmp(tp, "uxf") == 0) {
@@ -605,6 +649,12 @@ static void run(void)
 	return;
     }
 
+    if (badski) {
+	xcm_attr_map_destroy(a);
+	a = nb_attrs();
+	if (!ski_on_server)
+	    add_cred_files(a, skid, true);	/* the client presents it and verifies nothing itself */
+    }
     if (!idle) {
 	CALL_BEGIN(1);
 	so[1] = xcm_connect_a(saddr, a);
